@@ -52,7 +52,7 @@ fn logging_rules() -> gen::VS {
 }
 
 fn history_rules() -> gen::VS {
-    let general = rules::rooted(rules::Cfg::new(&["var", "cat", "+", "if", "==", "<", "merge", "map", "filter", "reduce", "in", "substr", "missing", "and", "or", "!", "all", "log", "max"]).keys(&["a", "b", "s", "t", "xs", "", "0"]).vars(8).poison(1).bad_arity(20).depth(2));
+    let general = rules::rooted(rules::Cfg::new(&["var", "cat", "+", "if", "==", "<", "merge", "map", "filter", "reduce", "in", "substr", "missing", "and", "or", "!", "all", "log", "max"]).keys(&["a", "b", "s", "t", "xs", "", "0", "$index", "index", "xs.length"]).vars(8).poison(1).bad_arity(20).depth(2));
     prop_oneof![3 => sensitive_rules(), 3 => logging_rules(), 4 => general, 1 => rules::poison()].boxed()
 }
 
